@@ -1,5 +1,6 @@
 pub mod c01;
 pub mod c14;
+pub mod c17;
 pub mod c18;
 pub mod compare;
 pub mod diff;
@@ -82,6 +83,19 @@ pub fn dispatch(prop: &str, tier: &str) -> i32 {
             cfg.rule = "one run = one world: for generated queries, a widened type palette (DECIMAL, DATE, TIMESTAMP, small/unsigned ints, REAL) and SELECT * of every table: DESCRIBE <stmt> must equal the announced output schema, and every produced array must carry the announced datatype. Non-trivial = >=2 scheduling decisions with choice and >=1 Pending poll.".into();
             cfg.assumptions = vec!["no schedule or fault is in the property's statement; it is monitored on simulated runs (see DESIGN 3 C18)".into()];
             crate::finish(&cfg, &c18::SchemaCheck, serde_json::json!({}))
+        }
+        "C17" | "C11" => {
+            let mut cfg = crate::base_cfg(prop, tier);
+            let single = prop == "C17";
+            cfg.runs = if quick { if single { 4000 } else { 2000 } } else { 400_000 };
+            cfg.rule = if single {
+                "one run = one generated CSV/TSV file (8 dialects x header/no header x column kinds x quoting styles x LF/CRLF x trailing newline or not, 0-1200 records, below and above the 4 KiB inference sample) read by SELECT *, DESCRIBE and the bare-path form through SimFs in the reference configuration and in 2-3 seeded configurations (read granularity 1 byte .. whole, Pending reads/opens, batch 1-8192, partitions 1-8, scheduling policy); every outcome must equal the harness's own RFC-4180 parse (R-CSV) typed by the narrowest-type rule over the sampled records, and all configurations must agree. Non-trivial = >=1 fired fault (short read, Pending I/O) or >=2 scheduling decisions with choice; distinct = distinct (scan configuration, event-trace digest).".to_string()
+            } else {
+                "one run = 1-6 generated CSV files of one schema in nested directories on the simulated disk, read through a file list, a glob and a GROUP BY _filename query, with shuffled/chunked/Pending directory listings, partitions 1-8, batch 1-8192 and short reads; result must be the bag union of the matching files' R-CSV rows, each file exactly once, identical in every configuration. Non-trivial = >=1 fired fault or >=2 scheduling decisions with choice.".to_string()
+            };
+            cfg.assumptions = vec!["R-CSV (the harness's RFC-4180 state machine) and Rust's bool/i64/f64 text parsers define 'fits'".into(), "dialect is existential unless the generating dialect is the only one satisfying the documented inference criteria on the sample".into(), "'**' is only generated where zero-directory and one-or-more-directory readings agree".into()];
+            let chk = c17::CsvCheck { property: if single { "C17" } else { "C11" }, mode: if single { c17::CsvMode::Single } else { c17::CsvMode::Multi } };
+            crate::finish(&cfg, &chk, serde_json::json!({}))
         }
         "C02" | "C03" | "C04" => {
             let mut cfg = crate::base_cfg(prop, tier);
